@@ -112,7 +112,7 @@ theorem bodySim_of_checks {M M' : Machine} {obj : HostVal} {c c' : Bytes} {I I' 
     (hout : outsideB I I' c.length lo hi = true) (h0 : safeB I c.length lo hi 0 = true)
     (hwin : ∀ i, (lo, i) ∈ I → lo < hi → ∀ stack st st', StEq false st st' → ∃ k k' e stack1 st1 st1', 0 < k ∧
          Steps M obj c k (lo, stack, st) (e, stack1, st1) ∧ Steps M' obj c' k' (lo, stack, st') (e, stack1, st1') ∧
-         safeB I c.length lo hi e = true ∧ StEq false st1 st1') :
+         safeB I c.length lo hi e = true ∧ StEq false st1 st1' ∧ 0 < k') :
     BodySim M M' obj c c' (RW I c.length lo hi) := by
   refine ⟨⟨rfl, h0⟩, ?_, ?_⟩
   · cases c <;> cases c' <;> simp_all
@@ -126,8 +126,8 @@ theorem bodySim_of_checks {M M' : Machine} {obj : HostVal} {c c' : Bytes} {I I' 
         subst this
         right; right
         intro stack st st' hst
-        obtain ⟨k, k', e, stack1, st1, st1', hk, h1, h2, h3, h4⟩ := hwin i hmi hin.2 stack st st' hst
-        exact ⟨k, k', e, e, stack1, st1, st1', hk, h1, h2, ⟨rfl, h3⟩, h4⟩
+        obtain ⟨k, k', e, stack1, st1, st1', hk, h1, h2, h3, h4, h5⟩ := hwin i hmi hin.2 stack st st' hst
+        exact ⟨k, k', e, e, stack1, st1, st1', hk, h1, h2, ⟨rfl, h3⟩, h4, Or.inl h5⟩
       · right; left
         unfold outsideB at hout
         rw [List.all_eq_true] at hout
